@@ -282,6 +282,8 @@ def classify19(sc, reason, obs):
         kind = ("wf-branch-target-also-data-successor" if b.get("bdata") else
                 "wf-branch-target-without-data-input" if b.get("bnone") else "wf-branch-routed-copy-without-data-successor")
         return "%s:%s/%s" % (reason, frame, kind)
+    if any(n.get("pan") for n in sc["nodes"]):
+        return "%s:%s/%s+convert-panic-in-fan-in" % (reason, frame, sc["mode"])
     if len(sc["branch"]) >= 2:
         picks = [b["ends"][b["pick"]] for b in sc["branch"]]
         same = len(set(picks)) < len(picks)
